@@ -32,6 +32,8 @@ MOLS = {
         "H": [[0, [3.4, 0.15, 0.0], [0.62, 0.53, 0.2], [0.17, 0.44, 1.0]], [1, [0.9, 1.0]]]}, spin=0),
     # an element that re-occurs after a different one (atom order H, O, H): per-element tables are indexed by atom
     "HOH": dict(atom="H 0 0.76 -0.48; O 0 0 0.1; H 0 -0.76 -0.48", basis="sto-3g", spin=0),
+    # labelled atoms (PySCF allows "H1", "H@2"): per-element tables are keyed by the label in some places, the element in others
+    "HOHlab": dict(atom="H1 0 0.76 -0.48; O 0 0 0.1; H@2 0 -0.76 -0.48", basis="sto-3g", spin=0),
     # a third-period element between two hydrogens: PySCF gives it different radial / angular tables at the same level
     "HSH": dict(atom="H 0.1 0.96 -0.6; S 0 0 0.1; H -0.2 -0.9 -0.7", basis="sto-3g", spin=0),
     "H2": dict(atom="H 0 0 -0.37; H 0 0 0.37", basis={"H": [[0, [1.2, 1.0]], [0, [0.3, 1.0]], [1, [0.8, 1.0]]]}, spin=0),
